@@ -41,6 +41,7 @@ const stageBound = 6 // = Model.stage_bound (checked against the model at run ti
 type event struct {
 	frames []string // innermost first, function base names
 	line   int      // line of the innermost frame
+	t      time.Time
 }
 
 type cctx struct {
@@ -91,7 +92,9 @@ func (c *cctx) Err() error {
 		c.lastT = now
 	}
 	if c.recAll {
-		c.events = append(c.events, c.capture())
+		ev := c.capture()
+		ev.t = time.Now()
+		c.events = append(c.events, ev)
 	}
 	if c.k >= 0 && i >= c.k {
 		if i == c.k {
@@ -116,10 +119,18 @@ func has(ev event, fn string) bool {
 
 // ---- shape reconstruction from the uncancelled trace ----
 
-type fobj struct{ b, k, p int }
+// passes: one entry per pass of buffer()'s loop = number of DetectKeywordsWithContext polls in that pass
+type fobj struct {
+	passes []int
+	k, p   int
+}
 
 func (o fobj) String() string {
-	return fmt.Sprintf("%d.%d.%d", o.b-1, o.k, o.p)
+	ps := make([]string, len(o.passes))
+	for i, d := range o.passes {
+		ps[i] = fmt.Sprint(d)
+	}
+	return fmt.Sprintf("%s.%d.%d", strings.Join(ps, "+"), o.k, o.p)
 }
 
 type section struct {
@@ -155,7 +166,14 @@ func addObjPoll(o *fobj, ev event, post bool) error {
 		if o.k > 0 || o.p > 0 {
 			return errors.New("buffer poll after key/post poll")
 		}
-		o.b++
+		if top == "buffer" {
+			o.passes = append(o.passes, 0)
+		} else {
+			if len(o.passes) == 0 || len(ev.frames) < 2 || ev.frames[1] != "buffer" {
+				return errors.New("keyword scan outside buffer()")
+			}
+			o.passes[len(o.passes)-1]++
+		}
 	case top == "processDictKeys":
 		if o.p > 0 {
 			return errors.New("key poll after post poll")
@@ -273,12 +291,12 @@ func buildShape(evs []event) (*shape, error) {
 		}
 	}
 	for _, s := range sh.sections {
-		if s.stream && s.o.b < 1 {
+		if s.stream && len(s.o.passes) < 1 {
 			return nil, errors.New("xref stream without buffer poll")
 		}
 	}
 	for _, s := range sh.ostreams {
-		if s.o.b < 1 {
+		if len(s.o.passes) < 1 {
 			return nil, errors.New("object stream without buffer poll")
 		}
 	}
@@ -286,7 +304,7 @@ func buildShape(evs []event) (*shape, error) {
 	for _, e := range sh.entries {
 		if e.parse {
 			np++
-			if e.o.b < 1 {
+			if len(e.o.passes) < 1 {
 				return nil, errors.New("entry without buffer poll")
 			}
 		}
@@ -413,8 +431,9 @@ func setSorted(on bool) {
 }
 
 type doc struct {
-	name string
-	b    []byte
+	name  string
+	b     []byte
+	iters int // scan documents: string literals / comments the keyword scanner has to step over in the big object
 }
 
 func main() {
@@ -437,14 +456,26 @@ func main() {
 	}
 	var docs []doc
 	docs = append(docs,
-		doc{"gen:xrefstream-40", genDoc(40, true)},
-		doc{"gen:xreftable-40", genDoc(40, false)},
-		doc{"gen:xrefstream-1200", genDoc(1200, true)},
-		doc{"gen:xreftable-1200", genDoc(1200, false)},
-		doc{"gen:repaired-xref-25", genRepaired(25)},
+		doc{name: "gen:xrefstream-40", b: genDoc(40, true)},
+		doc{name: "gen:xreftable-40", b: genDoc(40, false)},
+		doc{name: "gen:xrefstream-1200", b: genDoc(1200, true)},
+		doc{name: "gen:xreftable-1200", b: genDoc(1200, false)},
+		doc{name: "gen:repaired-xref-25", b: genRepaired(25)},
 	)
 	if r.Thorough() {
-		docs = append(docs, doc{"gen:xrefstream-100000", genDoc(100000, true)})
+		docs = append(docs, doc{name: "gen:xrefstream-100000", b: genDoc(100000, true)})
+	}
+	// one large object: long single scans of model.DetectKeywordsWithContext
+	for _, k := range []string{"literals", "comments", "lookalikes", "hex"} {
+		n := r.Pick(20000, 40000)
+		b, iters := genScanDoc(k, n)
+		docs = append(docs, doc{fmt.Sprintf("gen:scan-%s-%d", k, n), b, iters})
+	}
+	if r.Thorough() {
+		bl, il := genScanDoc("literals", 200000) // 1 MiB object
+		docs = append(docs, doc{"gen:scan-literals-200000", bl, il})
+		b, iters := genScanDoc("hex", 1<<20) // 16 MiB of hex strings, few scanner iterations
+		docs = append(docs, doc{"gen:scan-hex-16MiB", b, iters})
 	}
 	var files []string
 	for _, pat := range []string{"pkg/testdata/*.pdf", "pkg/testdata/*.PDF", "pkg/testdata/pdf20/*.pdf", "pkg/samples/basic/*.pdf"} {
@@ -460,7 +491,7 @@ func main() {
 		if err != nil || len(b) == 0 {
 			continue
 		}
-		docs = append(docs, doc{strings.TrimPrefix(f, repo+"/"), b})
+		docs = append(docs, doc{name: strings.TrimPrefix(f, repo+"/"), b: b})
 	}
 
 	budget := time.Duration(r.Pick(24, 420)) * time.Second
@@ -514,6 +545,32 @@ func main() {
 				}
 			}
 			totalS := bs.polls
+			if d.iters > 0 && bs.class == "ok" {
+				// poll density of the keyword scanner, independent of machine speed: one poll per literal/comment
+				scanPolls, maxPass := 0, 0
+				for _, ev := range cs.events {
+					if ev.frames[0] == "DetectKeywordsWithContext" {
+						scanPolls++
+					}
+				}
+				if shErr == nil {
+					for _, e := range sh.entries {
+						for _, p := range e.o.passes {
+							if p > maxPass {
+								maxPass = p
+							}
+						}
+					}
+				}
+				in := map[string]any{"doc": d.name, "mode": mode, "bytes": len(d.b), "literals_or_comments": d.iters,
+					"polls_in_DetectKeywordsWithContext": scanPolls, "polls_in_longest_scan": maxPass, "polls_total": totalS}
+				if scanPolls < d.iters || maxPass < d.iters {
+					r.OracleFail("scan-without-polls", in, fmt.Sprintf("the keyword scanner stepped over %d string literals/comments of one %d-byte object but polled the context only %d times (longest single scan: %d polls): a cancellation during that scan is not seen until it ends", d.iters, len(d.b), scanPolls, maxPass))
+				} else {
+					r.OracleOK()
+				}
+				r.Sample(in)
+			}
 			nfile := 0
 			if os.Getenv("C10_DEBUG") != "" && shErr == nil {
 				fmt.Fprintln(os.Stderr, "SHAPE", d.name, mode, strings.Join(sh.args(relaxed, nfile, -1), " "))
@@ -648,6 +705,7 @@ func main() {
 		}
 	}
 	setSorted(false)
+	gapSurvey(r)
 	// the trace parser must still understand the reader: otherwise K silently covers nothing
 	if nShapeOK >= 4*nShapeBad && nShapeOK > 0 {
 		r.Case("shapes", nil, "ok")
@@ -709,4 +767,151 @@ func genRepaired(n int) []byte {
 	b := genDoc(n, false)
 	i := bytes.LastIndex(b, []byte("startxref\n"))
 	return append(append([]byte{}, b[:i]...), []byte("startxref\n77\n%%EOF\n")...)
+}
+
+// genScanDoc builds a classic-xref document whose object 4 is ONE large array:
+//
+//	literals:   n short string literals            [(ab) (ab) ...]
+//	comments:   n comments                          [1 %c\n 1 %c\n ...]
+//	lookalikes: n literals that contain "endobj"    [(endobj) (stream) ...]
+//	hex:        n/64 long hex strings, 8 literals   [<4142...> ...]
+//
+// iters = number of literals/comments the keyword scanner has to step over before it can decide on endobj.
+func genScanDoc(kind string, n int) ([]byte, int) {
+	var big bytes.Buffer
+	iters := n
+	big.WriteString("[")
+	switch kind {
+	case "literals":
+		for i := 0; i < n; i++ {
+			big.WriteString("(ab) ")
+		}
+	case "comments":
+		for i := 0; i < n; i++ {
+			big.WriteString("1 %c\n")
+		}
+	case "lookalikes":
+		for i := 0; i < n; i++ {
+			if i%2 == 0 {
+				big.WriteString("(endobj) ")
+			} else {
+				big.WriteString("(stream) ")
+			}
+		}
+	case "hex":
+		hx := strings.Repeat("41", 512)
+		for i := 0; i < n/64; i++ {
+			big.WriteString("<" + hx + ">\n")
+		}
+		big.WriteString("(a)(b)(c)(d)(e)(f)(g)(h)")
+		iters = 8
+	}
+	big.WriteString("]")
+	var w bytes.Buffer
+	w.WriteString("%PDF-1.7\n")
+	var offs []int
+	obj := func(s string) {
+		offs = append(offs, w.Len())
+		fmt.Fprintf(&w, "%d 0 obj\n%s\nendobj\n", len(offs), s)
+	}
+	obj("<</Type/Catalog/Pages 2 0 R>>")
+	obj("<</Type/Pages/Kids[3 0 R]/Count 1>>")
+	obj("<</Type/Page/Parent 2 0 R/MediaBox[0 0 200 200]/PieceInfo<</X 4 0 R>>>>")
+	obj(big.String())
+	x := w.Len()
+	fmt.Fprintf(&w, "xref\n0 %d\n0000000000 65535 f \n", len(offs)+1)
+	for _, o := range offs {
+		fmt.Fprintf(&w, "%010d 00000 n \n", o)
+	}
+	fmt.Fprintf(&w, "trailer\n<</Size %d/Root 1 0 R>>\nstartxref\n%d\n%%%%EOF\n", len(offs)+1, x)
+	return w.Bytes(), iters
+}
+
+// gapSurvey: observations only (no assertion): the longest stretch of an uncancelled read between two
+// consecutive polls, and between which poll sites it lies, on documents built to stress loops of the read
+// path that iterate over input-sized data without polling.
+func gapSurvey(r *vh.Run) {
+	type sd struct {
+		name string
+		b    []byte
+	}
+	n := r.Pick(60000, 200000)
+	lit, _ := genScanDoc("literals", n)                // parseArray over n elements (no poll in parseArray)
+	hexd, _ := genScanDoc("hex", r.Pick(1<<18, 1<<20)) // 4 / 16 MiB of hex strings
+	docs := []sd{
+		{fmt.Sprintf("array-of-%d-literals", n), lit},
+		{"hex-strings", hexd},
+		{fmt.Sprintf("xref-table-%d-free-entries", 10*n), genXrefHeavy(10 * n)},                     // parseXRefTableSubSection loop
+		{"stream-length-" + fmt.Sprint(r.Pick(16, 64)) + "MiB", genBigStream(r.Pick(16, 64) << 20)}, // readStreamContent
+	}
+	for _, d := range docs {
+		c := &cctx{Context: context.Background(), k: -1, recAll: true}
+		t0 := time.Now()
+		res := readWith(d.b, true, c)
+		full := time.Since(t0)
+		var gap time.Duration
+		from, to := "", ""
+		prevT, prevS := t0, "ReadWithContext:start"
+		for _, ev := range c.events {
+			if g := ev.t.Sub(prevT); g > gap {
+				gap, from, to = g, prevS, ev.frames[0]
+			}
+			prevT, prevS = ev.t, ev.frames[0]
+		}
+		if g := time.Since(prevT) - 0; len(c.events) > 0 && t0.Add(full).Sub(prevT) > gap {
+			_ = g
+			gap, from, to = t0.Add(full).Sub(prevT), prevS, "ReadWithContext:return"
+		}
+		r.Sample(map[string]any{"gap_survey": d.name, "bytes": len(d.b), "class": res.class, "polls": res.polls,
+			"full_read_us": full.Microseconds(), "max_gap_us": gap.Microseconds(), "gap_after_poll_in": from, "gap_before_poll_in": to})
+	}
+}
+
+// genXrefHeavy: a valid small document whose classic xref table has n additional free entries.
+func genXrefHeavy(n int) []byte {
+	var w bytes.Buffer
+	w.WriteString("%PDF-1.7\n")
+	var offs []int
+	obj := func(s string) {
+		offs = append(offs, w.Len())
+		fmt.Fprintf(&w, "%d 0 obj\n%s\nendobj\n", len(offs), s)
+	}
+	obj("<</Type/Catalog/Pages 2 0 R>>")
+	obj("<</Type/Pages/Kids[3 0 R]/Count 1>>")
+	obj("<</Type/Page/Parent 2 0 R/MediaBox[0 0 200 200]>>")
+	x := w.Len()
+	fmt.Fprintf(&w, "xref\n0 %d\n0000000000 65535 f \n", len(offs)+1+n)
+	for _, o := range offs {
+		fmt.Fprintf(&w, "%010d 00000 n \n", o)
+	}
+	for i := 0; i < n; i++ {
+		w.WriteString("0000000000 00001 f \n")
+	}
+	fmt.Fprintf(&w, "trailer\n<</Size %d/Root 1 0 R>>\nstartxref\n%d\n%%%%EOF\n", len(offs)+1+n, x)
+	return w.Bytes()
+}
+
+// genBigStream: a valid small document with one uncompressed stream of n bytes.
+func genBigStream(n int) []byte {
+	var w bytes.Buffer
+	w.WriteString("%PDF-1.7\n")
+	var offs []int
+	obj := func(s string) {
+		offs = append(offs, w.Len())
+		fmt.Fprintf(&w, "%d 0 obj\n%s\nendobj\n", len(offs), s)
+	}
+	obj("<</Type/Catalog/Pages 2 0 R>>")
+	obj("<</Type/Pages/Kids[3 0 R]/Count 1>>")
+	obj("<</Type/Page/Parent 2 0 R/MediaBox[0 0 200 200]/PieceInfo<</X 4 0 R>>>>")
+	offs = append(offs, w.Len())
+	fmt.Fprintf(&w, "4 0 obj\n<</Length %d>>\nstream\n", n)
+	w.Write(bytes.Repeat([]byte{'x'}, n))
+	w.WriteString("\nendstream\nendobj\n")
+	x := w.Len()
+	fmt.Fprintf(&w, "xref\n0 %d\n0000000000 65535 f \n", len(offs)+1)
+	for _, o := range offs {
+		fmt.Fprintf(&w, "%010d 00000 n \n", o)
+	}
+	fmt.Fprintf(&w, "trailer\n<</Size %d/Root 1 0 R>>\nstartxref\n%d\n%%%%EOF\n", len(offs)+1, x)
+	return w.Bytes()
 }
